@@ -21,6 +21,23 @@ ORACLE (independent of the Lean model; from the metric-level script and the prop
      equals what `<prefix>_<current identity>.db` holds for its key.
 MODEL: the value-level log of the same history is one `c08 hist` request; the whole directory after every value-level
 call and every `get` result are compared with the real ones.
+
+WORLD histories (family "generations"): several worker generations on ONE directory.  `['W', pid]` starts a NEW worker
+(a fresh value class with its own identity cell, NEW metric objects, value-object indices restarting at 0; the files of
+the generation that was acting are closed, as process exit does) — often with a REUSED pid, with or without a preceding
+death; `['D', pid]` is the real `multiprocess.mark_process_dead(pid, dir)`; a D of an identity the acting generation has
+used ends that generation (the next metric-level step starts a new worker under the last identity if the script has
+no W there, so shrunk step lists stay valid).  All ten gauge modes are checked in every history, per identity, with the
+aggregate written for C08 (`props.c08.Oracle`, fed from the metric-level script only):
+ (a) also: a `D p` step removes exactly the existing `gauge_<live mode>_<p>.db` and changes nothing else
+     (C09:dead-removed-wrong-files); a `W` step changes nothing;
+ (b) conservation holds across death and reuse: totals of ALL updates of ALL generations and identities;
+ (c) non-live gauges survive death and a reused pid CONTINUES from what its files hold (C09:reuse-continues when a W
+     happened before); after `D p` identity p contributes nothing to the live* gauges until a generation under p touches
+     the child again, and then from 0.0 (C09:live-gauge-survived-death when a D happened before); without W/D the
+     sig is C09:per-pid-gauge (all/liveall) or C09:gauge-aggregate;
+ (d) per generation.
+The whole world (W/D tokens interleaved with the generations' value-level logs) is ONE `c08 hist` request.
 """
 import hashlib
 import os
@@ -48,13 +65,15 @@ def raw_equal(a, b):
 class Oracle:
     def __init__(self, pool):
         self.pool = pool
-        self.children = []      # (mi, lvs) existing in the acting process, in creation order
-        self.totals = {}        # (mi, lvs) -> [list of amounts]  (counter incs / observations)
+        self.children = []      # (mi, lvs) existing in the acting worker's memory, in creation order
+        self.totals = {}        # (mi, lvs) -> [amounts]  (counter incs / observations) of ALL generations and identities
         self.excluded = set()   # metric indices on which reset() was used
-        self.cells = {}         # identity -> {(mi, lvs): value}   per-pid gauges
+        self.agg = c08.Oracle(pool)     # gauges only: what each identity holds (per identity, across generations)
+        self.deaths = 0
+        self.spawns = 0
 
     def create_child(self, mi, lvs):
-        """-> True when the child is new in the acting process's memory (its value objects get constructed)"""
+        """-> True when the child is new in the acting worker's memory (its value objects get constructed)"""
         self.totals.setdefault((mi, lvs), [])
         if (mi, lvs) in self.children:
             return False
@@ -62,25 +81,25 @@ class Oracle:
         return True
 
     def touched(self, pid):
-        """identity `pid` reached a value object: every existing per-pid gauge child now has a cell of its own there"""
-        cells = self.cells.setdefault(pid, {})
+        """identity `pid` reached a value object: every gauge child of the acting worker now has a cell of its own in
+        `pid`'s files — continuing from what those files hold, 0.0 when they hold nothing"""
         for mi, lvs in self.children:
-            if is_perpid(self.pool[mi]):
-                cells.setdefault((mi, lvs), 0.0)
+            if self.pool[mi]['kind'] == 'gauge':
+                self.agg.create_child(pid, mi, lvs)
 
-    def update(self, pid, mi, lvs, op, x):
-        md = self.pool[mi]
-        if md['kind'] == 'gauge':
-            if is_perpid(md):
-                cells = self.cells[pid]
-                if op == 'set':
-                    cells[(mi, lvs)] = float(x)
-                elif op == 'inc':
-                    cells[(mi, lvs)] += x
-                else:
-                    cells[(mi, lvs)] += -x
+    def update(self, pid, mi, lvs, op, x, t):
+        if self.pool[mi]['kind'] == 'gauge':
+            self.agg.update(pid, mi, lvs, op, x, t)
         else:
             self.totals[(mi, lvs)].append(x)
+
+    def new_worker(self):
+        self.children = []
+        self.spawns += 1
+
+    def dead(self, pid):
+        self.agg.dead(pid)
+        self.deaths += 1
 
     def expected_conserved(self):
         """{family: {(sample name, labels): total}} for counters, summaries, histograms never reset"""
@@ -107,14 +126,36 @@ class Oracle:
                 fam[(n + '_count', L)] = float(sum(1 for a in amounts if a <= INF))
         return out
 
-    def expected_perpid(self):
-        out = {}
-        for pid, cells in self.cells.items():
-            for (mi, lvs), v in cells.items():
-                md = self.pool[mi]
-                L = tuple(sorted(tuple(zip(md['labels'], lvs)) + (('pid', str(pid)),)))
-                out.setdefault(md['name'], {})[(md['name'], L)] = v
-        return out
+    def gauge_sig(self, md):
+        live = md['mode'].startswith('live')
+        if live and self.deaths:
+            return 'C09:live-gauge-survived-death'
+        if not live and self.spawns:
+            return 'C09:reuse-continues'
+        return 'C09:per-pid-gauge' if is_perpid(md) else 'C09:gauge-aggregate'
+
+    def check_gauges(self, canon):
+        """the collected gauge families against the per-identity aggregate; -> [(sig, what)]"""
+        probs = []
+        exp = self.agg.expected()
+        for md in self.pool:
+            if md['kind'] != 'gauge':
+                continue
+            n = md['name']
+            rs = canon.get(n, (None, None, {}))[2]
+            es = exp.get(n, (None, None, {}, md))[2]
+            for k in sorted(set(rs) - set(es)):
+                probs.append((self.gauge_sig(md), 'gauge %s (%s): series %s%r=%r is collected but no %sidentity holds it' % (
+                    n, md['mode'], k[0], dict(k[1]), rs[k], 'live ' if md['mode'].startswith('live') else '')))
+            for k in sorted(set(es) - set(rs)):
+                if es[k][0] != 'opt':
+                    probs.append((self.gauge_sig(md), 'gauge %s (%s): series %s%r (%s %r) is not collected' % (
+                        n, md['mode'], k[0], dict(k[1]), es[k][0], es[k][1])))
+            for k in sorted(set(es) & set(rs)):
+                if not c08.spec_ok(es[k], rs[k]):
+                    probs.append((self.gauge_sig(md), 'gauge %s (%s): series %s%r collected %r, the history demands %s %r' % (
+                        n, md['mode'], k[0], dict(k[1]), rs[k], es[k][0], es[k][1])))
+        return probs
 
 
 def check_exact(canon, expected, sig):
@@ -154,7 +195,20 @@ def file_prefix_of(obj):
     return typ + '_' + mode if typ == 'gauge' else typ
 
 
-def oracle_a(res, i, pid, before, after, is_pid_step):
+def oracle_a(res, i, pid, before, after, kind):
+    """kind: 'op' (a step executed under identity pid), 'pid' (identity change), 'W' (new worker), 'D' (death of pid)"""
+    if kind == 'D':
+        from prometheus_client.metrics import Gauge
+        doomed = set('gauge_%s_%s.db' % (m, pid) for m in Gauge._MULTIPROC_MODES if m.startswith('live'))
+        for bn in before:
+            if (bn not in after) != (bn in doomed):
+                res.failures.append(('C09:dead-removed-wrong-files', 'mark_process_dead(%s) %s %s' % (
+                    pid, 'removed' if bn not in after else 'left', bn), i))
+        for bn, entries in after.items():
+            if bn not in before or not raw_equal(before[bn], entries):
+                res.failures.append(('C09:dead-removed-wrong-files', 'mark_process_dead(%s) %s %s' % (
+                    pid, 'changed' if bn in before else 'created', bn), i))
+        return
     for bn in before:
         if bn not in after:
             res.failures.append(('C09:foreign-file-written', 'file %s disappeared during a step under identity %s' % (bn, pid), i))
@@ -162,8 +216,10 @@ def oracle_a(res, i, pid, before, after, is_pid_step):
         if bn in before and raw_equal(before[bn], entries):
             continue
         verb = 'created' if bn not in before else 'changed'
-        if is_pid_step:
+        if kind == 'pid':
             res.failures.append(('C09:foreign-file-written', 'file %s %s by the identity change itself' % (bn, verb), i))
+        elif kind == 'W':
+            res.failures.append(('C09:foreign-file-written', 'file %s %s by the start of a new worker' % (bn, verb), i))
         elif not bn.endswith('_%s.db' % pid):
             res.failures.append(('C09:foreign-file-written', 'file %s %s by a step executed under identity %s' % (bn, verb, pid), i))
 
@@ -174,7 +230,7 @@ def oracle_bc(res, i, oracle, collected):
         res.failures.append(('C09:conservation', 'collector output: ' + d, i))
     for sig, what in check_exact(canon, oracle.expected_conserved(), 'C09:conservation'):
         res.failures.append((sig, what, i))
-    for sig, what in check_exact(canon, oracle.expected_perpid(), 'C09:per-pid-gauge'):
+    for sig, what in oracle.check_gauges(canon):
         res.failures.append((sig, what, i))
     return canon
 
@@ -193,28 +249,82 @@ def oracle_d(res, i, objs, pid, after):
                 idx, obj._params[1:5], obj._value, obj._timestamp, fn, held[0]), i))
 
 
+class Worker:
+    """one worker generation: its own value class + identity cell + metric objects + value-object numbering"""
+
+    def __init__(self, sim, pool, pid, log, variant):
+        self.log = log
+        self.cls, self.cell = sim.cell_class(pid, log)
+        self.proc = c08.RealProc(self.cls, pool, sim.use, sim.clock, variant)
+        self.ids = {pid}
+
+
 def run_history(scen, want_sample=False):
+    from prometheus_client import multiprocess
     res = Result()
     pool = scen['pool']
-    log = mpsim.ValueLog()
+    world = mpsim.ValueLog()
     oracle = Oracle(pool)
+    variant = scen.get('variant', 0)
     with mpsim.Sim() as sim:
-        cls, cell = sim.cell_class(scen['pid0'], log)
-        log.after = lambda at: res.snaps.__setitem__(at, mpsim.snapshot(sim.dir))
-        proc = c08.RealProc(cls, pool, sim.use, sim.clock, scen.get('variant', 0))
+        world.after = lambda at: res.snaps.__setitem__(at, mpsim.snapshot(sim.dir))
+        w = Worker(sim, pool, scen['pid0'], world, variant)
+        last_pid = scen['pid0']
+        ngen = 1
         after = mpsim.snapshot(sim.dir)
         pids_seen = {scen['pid0']}
         canon = {}
+
+        def spawn(pid):
+            nonlocal w, last_pid, ngen
+            if w is not None:
+                mpsim.close_class_files(w.cls)      # the worker that was acting exits
+            world.event(('W', str(pid)))
+            w = Worker(sim, pool, pid, world.spawn(), (variant + ngen) % 3)
+            ngen += 1
+            last_pid = pid
+            oracle.new_worker()
+            res.count('W:' + ('reused-pid' if pid in pids_seen else 'fresh-pid'))
+            pids_seen.add(pid)
+
         for i, st in enumerate(scen['steps']):
-            before = after
-            nlog = len(log.ops)
-            pid = cell[0]
             op = st[0]
             res.count('step:' + op)
+            if op not in ('W', 'D') and w is None:
+                # the acting worker was marked dead and the script has no W here: a new worker under the last identity
+                before = after
+                spawn(last_pid)
+                after = mpsim.snapshot(sim.dir)
+                oracle_a(res, i, last_pid, before, after, 'W')
+                res.count('W:implicit')
+            before = after
+            nlog = len(world.ops)
+            pid = w.cell[0] if w is not None else last_pid
             raised = None
-            if op == 'pid':
-                cell[0] = st[1]
-                log.set_pid_logged(st[1])
+            kind = 'op'
+            if op == 'W':
+                kind = 'W'
+                spawn(st[1])
+            elif op == 'D':
+                kind = 'D'
+                pid = st[1]
+                mine = w is not None and pid in w.ids
+                res.count('D:' + ('acting-worker' if mine else ('earlier-pid' if pid in pids_seen else 'never-used-pid')))
+                if mine:
+                    mpsim.close_class_files(w.cls)      # that process is dead
+                    w = None
+                try:
+                    multiprocess.mark_process_dead(pid, sim.dir)
+                except Exception as e:  # noqa
+                    res.failures.append(('C09:raises', 'mark_process_dead(%s) raised %s: %s' % (pid, type(e).__name__, e), i))
+                world.event(('D', str(pid)))
+                oracle.dead(pid)
+            elif op == 'pid':
+                kind = 'pid'
+                w.cell[0] = st[1]
+                last_pid = st[1]
+                w.ids.add(st[1])
+                w.log.set_pid_logged(st[1])
                 res.count('pid:' + ('return-to-seen' if st[1] in pids_seen else 'new'))
                 pids_seen.add(st[1])
             else:
@@ -222,13 +332,14 @@ def run_history(scen, want_sample=False):
                 md = pool[mi]
                 lvs = c08.lvs_of(md, st[2]) if len(st) > 2 else ()
                 expect = None
+                proc = w.proc
                 try:
                     if op == 'create':
                         proc.metric(mi)
                         if not md['labels']:
                             oracle.create_child(mi, ())
                     elif op == 'read':
-                        sim.use(cls)
+                        sim.use(w.cls)
                         list(proc.metric(mi).collect())
                         if not md['labels']:
                             oracle.create_child(mi, ())
@@ -236,7 +347,7 @@ def run_history(scen, want_sample=False):
                         proc.child(mi, lvs)
                         oracle.create_child(mi, lvs)
                         if op == 'reset':
-                            sim.use(cls)
+                            sim.use(w.cls)
                             proc.child(mi, lvs).reset()
                             oracle.excluded.add(mi)
                         elif op != 'child':
@@ -244,36 +355,35 @@ def run_history(scen, want_sample=False):
                             t = lib.from_bits(st[4]) if len(st) > 4 else sim.clock.now
                             expect = 'RuntimeError' if (c08.is_mostrecent(md) and op in ('inc', 'dec')) else None
                             raised = proc.update(mi, lvs, op, x, t)
-                            if len(log.ops) > nlog:
+                            if len(world.ops) > nlog:
                                 oracle.touched(pid)
                             if raised is None:
-                                oracle.update(pid, mi, lvs, op, x)
+                                oracle.update(pid, mi, lvs, op, x, t)
                     if raised != expect:
                         res.failures.append(('C09:raises', 'step %r under identity %s raised %s, expected %s' % (st, pid, raised, expect), i))
                 except Exception as e:  # noqa
                     raised = type(e).__name__
                     res.failures.append(('C09:raises', 'step %r under identity %s raised %s: %s' % (st, pid, raised, e), i))
-                if len(log.ops) > nlog:
+                if len(world.ops) > nlog:
                     oracle.touched(pid)
             after = mpsim.snapshot(sim.dir)
-            oracle_a(res, i, pid, before, after, op == 'pid')
+            oracle_a(res, i, pid, before, after, kind)
             try:
                 collected = sim.collect()
             except Exception as e:  # noqa
                 res.failures.append(('C09:raises', 'collect() raised %s: %s' % (type(e).__name__, e), i))
                 continue
             canon = oracle_bc(res, i, oracle, collected)
-            if len(log.ops) > nlog and op != 'pid' and raised is None:
-                oracle_d(res, i, log.objs, cell[0], after)
-        res.line = mpsim.hist_request(scen['pid0'], log.ops)
-        res.nops = len(log.ops)
-        res.gets = dict(log.gets)
+            if kind == 'op' and len(world.ops) > nlog and raised is None:
+                oracle_d(res, i, w.log.objs, w.cell[0], after)
+        res.line = mpsim.hist_request(scen['pid0'], world.ops)
+        res.nops = len(world.ops)
+        res.gets = dict(world.gets)
         res.snaps = {k: mpsim.canon_snapshot(v) for k, v in res.snaps.items()}
-        npid = sum(1 for st in scen['steps'] if st[0] == 'pid')
-        if npid:
+        if any(st[0] in ('pid', 'W', 'D') for st in scen['steps']):
             res.key = hashlib.md5((res.line + mpsim.fams_fingerprint(canon)).encode('utf-8')).hexdigest()
         if want_sample:
-            res.sample = {'pid0': scen['pid0'], 'steps': [[s if not isinstance(s, int) or j < 2 or st[0] == 'pid' else repr(lib.from_bits(s))
+            res.sample = {'pid0': scen['pid0'], 'steps': [[s if not isinstance(s, int) or j < 2 or st[0] in ('pid', 'W', 'D') else repr(lib.from_bits(s))
                                                           for j, s in enumerate(st)] for st in scen['steps']][:14],
                           'files_at_end': sorted(after)}
     return res
@@ -290,17 +400,17 @@ def model_divergences(ctx, results):
         steps = mpsim.parse_hist_reply(rep)
         traces += 1
         if steps is None or len(steps) != r.nops:
-            out[ri].append('model reply %r for a log of %d value-level calls' % (rep[:80], r.nops))
+            out[ri].append('model reply %r for a log of %d steps' % (rep[:80], r.nops))
             continue
         for k in sorted(r.snaps):
             d = mpsim.diff_disk(r.snaps[k], steps[k][1])
             if d:
-                out[ri].append('after value-level call %d: %s' % (k, d))
+                out[ri].append('after logged step %d: %s' % (k, d))
                 break
         for k, g in sorted(r.gets.items()):
             mg = steps[k][0]
             if mg is None or not feq(mg, g):
-                out[ri].append('value-level call %d: get returned %r, model %r' % (k, g, mg))
+                out[ri].append('logged step %d: get returned %r, model %r' % (k, g, mg))
                 break
     return out, traces
 
@@ -391,6 +501,118 @@ def gen_history(rng, all_modes, long=False):
     return {'pool': pool, 'pid0': pids[0], 'steps': steps, 'variant': rng.randrange(3)}
 
 
+# ================================================================================================== generations
+def world_bases():
+    """base scripts of one worker (identity 10) for the systematic D/W placements: every gauge mode occurs"""
+    out = []
+    out.append(([mdef('gauge', 'g', (), 'all'), mdef('gauge', 'gl', (), 'liveall'), mdef('counter', 'c')],
+                [['set', 0, [], B(3.0), B(10.0)], ['set', 1, [], B(4.0), B(10.0)], ['inc', 2, [], B(1.0)],
+                 ['inc', 0, [], B(2.0), B(11.0)], ['inc', 1, [], B(1.0), B(11.0)], ['inc', 2, [], B(2.0)]]))
+    out.append(([mdef('gauge', 'gs', ['l'], 'livesum'), mdef('gauge', 'gn', (), 'min'), mdef('gauge', 'gm', (), 'livemin'),
+                 mdef('gauge', 'gt', (), 'sum')],
+                [['set', 0, ['x'], B(2.0), B(10.0)], ['set', 1, [], B(-1.0), B(10.0)], ['set', 2, [], B(-2.0), B(10.0)],
+                 ['inc', 3, [], B(4.0), B(11.0)], ['inc', 0, ['y'], B(1.0), B(11.0)], ['create', 1], ['dec', 3, [], B(1.0), B(12.0)]]))
+    out.append(([mdef('gauge', 'gr', (), 'mostrecent'), mdef('gauge', 'glr', ['l'], 'livemostrecent'),
+                 mdef('gauge', 'gx', (), 'max'), mdef('gauge', 'gy', (), 'livemax')],
+                [['set', 0, [], B(1.0), B(10.0)], ['set', 1, ['x'], B(2.0), B(11.0)], ['set', 2, [], B(5.0), B(11.0)],
+                 ['set', 3, [], B(6.0), B(11.0)], ['child', 0, []], ['set', 1, ['x'], B(3.0), B(12.0)], ['set', 0, [], B(4.0), B(12.0)]]))
+    out.append(([mdef('histogram', 'h', (), '', 'small'), mdef('summary', 's', ['l']), mdef('gauge', 'ga', ['l'], 'liveall'),
+                 mdef('counter', 'c', ['l'])],
+                [['obs', 0, [], B(1.0)], ['obs', 1, ['x'], B(2.5)], ['set', 2, ['a'], B(7.0), B(10.0)], ['inc', 3, ['x'], B(1.0)],
+                 ['obs', 0, [], B(3.0)], ['read', 2], ['inc', 3, ['x'], B(0.5)]]))
+    return out
+
+
+def world_insertions(steps):
+    """D/W placed at every position between the metric-level steps of a script that starts under identity 10"""
+    n = len(steps)
+    for i in range(n + 1):
+        a, b = steps[:i], steps[i:]
+        yield a + [['D', 10], ['W', 10]] + b            # death, the pid is reused
+        yield a + [['W', 10]] + b                       # plain restart on the old files
+        yield a + [['D', 10], ['W', 11]] + b            # death, a fresh pid takes over
+        yield a + [['D', 10]] + b                       # death, no W in the script: implicit new worker, same pid
+        yield a + [['D', 99]] + b                       # a pid nobody ever used
+        yield a + [['pid', 11], ['D', 10]] + b          # D of an identity the acting worker has left: the worker ends
+        for j in sorted({i, min(i + 1, n), n}):         # a later worker keeps running while the earlier pid is marked dead
+            yield a + [['W', 11]] + steps[i:j] + [['D', 10]] + steps[j:]
+        for j in range(i + 1, n + 1, 2):                # two deaths with reuse; back to the first pid after a detour
+            yield a + [['D', 10], ['W', 10]] + steps[i:j] + [['D', 10], ['W', 10]] + steps[j:]
+            yield a + [['D', 10], ['W', 11]] + steps[i:j] + [['W', 10]] + steps[j:]
+
+
+def gen_world(rng, all_modes, long=False):
+    """1-4 generations, each a short script (optionally with identity changes), D and W between (and D inside) them"""
+    pool = [c08.gen_metric(rng, i, all_modes) for i in range(rng.randint(1, 4))]
+    live = [m for m in all_modes if m.startswith('live')]
+    pool.append(mdef('gauge', 'gw', rng.choice(c08.LABEL_NAMES) if rng.random() < 0.4 else [], rng.choice(live)))
+    if rng.random() < 0.6:
+        pool.append(mdef('gauge', 'gv', [], rng.choice([m for m in all_modes if not m.startswith('live')])))
+    for md in pool:
+        if md['kind'] == 'histogram' and md['layout'] == 'default' and rng.random() < 0.8:
+            md['layout'] = rng.choice(['small', 'dec', 'big', 'neg'])
+    pids = rng.sample(c08.PID_POOL, rng.choice([2, 3, 3, 4]))
+    cands = []
+    for md in pool:
+        k = len(md['labels'])
+        cands.append([[rng.choice(c08.LABEL_VALUES) for _ in range(k)] for _ in range(rng.randint(1, 2))] if k else [[]])
+    steps = []
+    t = 5.0
+    used = []               # identities of ended generations
+    cur = pids[0]
+    pid0 = cur
+    ngen = rng.randint(2, 4) if long else rng.choice([1, 2, 2, 3, 3, 4])
+    for g in range(ngen):
+        ids = [cur]
+        for _ in range(rng.randint(8, 20) if long else rng.randint(3, 10)):
+            r = rng.random()
+            mi = rng.randrange(len(pool))
+            md = pool[mi]
+            lvs = rng.choice(cands[mi])
+            if r < 0.08:
+                cur = rng.choice(pids)
+                steps.append(['pid', cur])
+                if cur not in ids:
+                    ids.append(cur)
+            elif r < 0.13:
+                others = [q for q in used if q not in ids]
+                # an earlier generation's pid (or a pid never used) is marked dead while this worker runs
+                steps.append(['D', rng.choice(others) if others and rng.random() < 0.8 else 99])
+            elif r < 0.19:
+                steps.append(['create', mi])
+            elif r < 0.25:
+                steps.append(['child', mi, lvs])
+            elif r < 0.31:
+                steps.append(['read', mi])
+            elif md['kind'] == 'counter':
+                steps.append(['inc', mi, lvs, B(c08.gen_value(rng, md, 'inc'))])
+            elif md['kind'] in ('summary', 'histogram'):
+                steps.append(['obs', mi, lvs, B(c08.gen_value(rng, md, 'obs'))])
+            else:
+                if rng.random() < 0.7:
+                    t += 1.0
+                op = rng.choice(['set', 'set', 'set', 'inc', 'dec'])
+                steps.append([op, mi, lvs, B(c08.gen_value(rng, md, op)), B(t)])
+        used += [q for q in ids if q not in used]
+        if g + 1 == ngen:
+            if rng.random() < 0.4:
+                steps.append(['D', rng.choice(ids)])        # the history ends with a death
+            break
+        r = rng.random()
+        if r < 0.6:
+            steps.append(['D', rng.choice(ids)])
+            if rng.random() < 0.25:
+                steps.append(['D', rng.choice(used + [99])])
+        elif r < 0.7:
+            steps.append(['D', rng.choice(used + [99])])       # may or may not concern the acting worker
+        cur = rng.choice(used) if rng.random() < 0.65 else rng.choice(pids)
+        if not (steps and steps[-1][0] == 'D' and rng.random() < 0.12):    # sometimes no W: the runner restarts the worker itself
+            steps.append(['W', cur])
+        else:
+            cur = ids[-1]
+    return {'pool': pool, 'pid0': pid0, 'steps': steps, 'variant': rng.randrange(3)}
+
+
 # ================================================================================================== real fork
 def gen_fork_history(rng, all_modes):
     h = gen_history(rng, all_modes, long=True)
@@ -444,7 +666,7 @@ def oracle_steps(oracle, pid, pool, steps):
                 oracle.touched(pid)
             continue
         oracle.touched(pid)
-        oracle.update(pid, mi, lvs, st[0], lib.from_bits(st[3]))
+        oracle.update(pid, mi, lvs, st[0], lib.from_bits(st[3]), lib.from_bits(st[4]) if len(st) > 4 else 0.0)
 
 
 def run_fork_history(scen):
@@ -495,7 +717,7 @@ def run_fork_history(scen):
                 # what the child created lives on in the files but not in the parent's memory
                 oracle.children = saved
             after = mpsim.snapshot(sim.dir)
-            oracle_a(res, k, actor, before, after, False)
+            oracle_a(res, k, actor, before, after, 'op')
             try:
                 collected = sim.collect()
             except Exception as e:  # noqa
@@ -623,14 +845,19 @@ def run(ctx):
     ctx.rule = ('history = metric pool + metric-level script under one value class with a scripted process identity; 9 hand-written '
                 'base histories with an identity change inserted at every position (one change; two changes, the second '
                 'returning to the first identity or going to a third), then seeded random histories (2-4 identities, 6-50 steps, '
-                'all metric types, all gauge modes, metrics sharing a per-type file); one case = one history, observed after '
-                'every step; non-trivial when it contains an identity change; distinct by value-level log + final collection')
+                'all metric types, all gauge modes, metrics sharing a per-type file); family "generations": 4 base scripts with '
+                'mark_process_dead / new worker (reused or fresh pid) placed at every position, then seeded random worlds of 1-4 '
+                'worker generations with identity changes inside and deaths between and inside them; one case = one history, '
+                'observed after every step; non-trivial when it contains an identity change, a new worker or a death; '
+                'distinct by value-level log + final collection')
     quick = ctx.tier == 'quick'
     budget = 42.0 if quick else 420.0
     n_random = 350 if quick else 5000
+    n_world = 220 if quick else 4000
     n_fork = 2 if quick else 200
     if ctx.broken:
         n_random *= 3
+        n_world *= 3
         budget *= 1.5
     t0 = time.time()
     rep = Reporter(ctx)
@@ -647,9 +874,27 @@ def run(ctx):
             if len(batch) >= 60:
                 flush(ctx, rep, batch)
     flush(ctx, rep, batch)
+    for pool, steps in world_bases():
+        for k, ins in enumerate(world_insertions(steps)):
+            scen = {'pool': pool, 'pid0': 10, 'steps': ins, 'variant': 0}
+            batch.append((scen, run_history(scen, k == 14 and len(ctx.samples) < 5)))
+            ctx.count('histories:generations-systematic')
+            if len(batch) >= 60:
+                flush(ctx, rep, batch)
+    flush(ctx, rep, batch)
     for k in range(n_fork):
         scen = gen_fork_history(ctx.rng, all_modes)
         batch.append((scen, run_fork_history(scen)))
+    flush(ctx, rep, batch)
+    for k in range(n_world):
+        if time.time() - t0 > budget * 0.55:
+            ctx.count('histories:skipped-for-time', n_world - k)
+            break
+        scen = gen_world(ctx.rng, all_modes, long=(k % 6 == 5))
+        batch.append((scen, run_history(scen)))
+        ctx.count('histories:generations-random')
+        if len(batch) >= 40:
+            flush(ctx, rep, batch)
     flush(ctx, rep, batch)
     for k in range(n_random):
         if time.time() - t0 > budget:
